@@ -125,7 +125,7 @@ SpecAsPinned == Init /\ [][NextAsPinned]_vars
 -----------------------------------------------------------------------------
 RECURSIVE Log2Ceil(_)
 Log2Ceil(x) == IF x <= 1 THEN 0 ELSE 1 + Log2Ceil((x + 1) \div 2)
-CallLimit(N) == N + 2 * Log2Ceil(N + 1) + 4
+CallLimit(N) == N + 8 * Log2Ceil(N + 1) + 16     \* "a logarithmic term": generous constants, the statement names none
 
 TypeOK == /\ pc \in {"first", "bisect", "rebase", "bin", "done"}
           /\ low \in 0..n /\ high \in 0..n /\ nearest \in (-1)..(n-1)
